@@ -195,6 +195,8 @@ func (w *World) Maint(op sim.Op) (handled bool) {
 			switch {
 			case strings.Contains(msg, "cs.tables"):
 				kind = "compact_state_tables"
+			case strings.Contains(msg, "refcount underflow"):
+				kind = "table_refcount"
 			case strings.Contains(msg, "keyRange"):
 				kind = "compact_state_range"
 			case strings.Contains(msg, "index out of range"), strings.Contains(msg, "nil pointer"):
@@ -268,6 +270,8 @@ func (w *World) maint(op sim.Op) bool {
 			return files[i].FileID < files[j].FileID
 		})
 		f := files[int(op.A)%len(files)]
+		// counted before the call: a crash image cut while the pass is running sees it
+		w.Res.Faults["vlog_gc_started"]++
 		err := db.VerifGCFile(f.Bucket, f.FileID, 0.01, op.B%2 == 1)
 		synctest.Wait()
 		w.Res.Trace.Add("gc file %d/%d force=%v -> %v", f.Bucket, f.FileID, op.B%2 == 1, err)
@@ -283,6 +287,7 @@ func (w *World) maint(op sim.Op) bool {
 			w.Res.Faults["vlog_gc_attempt_failed"]++
 		}
 	case "rungc":
+		w.Res.Faults["vlog_gc_started"]++
 		err := db.RunValueLogGC(0.01)
 		synctest.Wait()
 		w.Res.Trace.Add("rungc -> %v", err)
@@ -464,7 +469,7 @@ func readErrSig(w *World, api string, err error) map[string]string {
 
 // GCRan reports whether any value-log GC pass got as far as touching data in this run.
 func GCRan(w *World) bool {
-	return w.Res.Faults["vlog_gc_rewrite"]+w.Res.Faults["vlog_gc_run"]+w.Res.Faults["vlog_gc_attempt_failed"] > 0
+	return w.Res.Faults["vlog_gc_rewrite"]+w.Res.Faults["vlog_gc_run"]+w.Res.Faults["vlog_gc_attempt_failed"]+w.Res.Faults["vlog_gc_started"] > 0
 }
 
 // DescribeTables renders the installed tables (level, ingest flag, file id, key range).
